@@ -22,13 +22,16 @@ VARIABLES all,       \* the input metas (chosen in Init)
           metas,     \* ids still in the metas map
           pending,   \* groups not yet handed to a worker
           w,         \* worker -> [g, rest, cover, dups, st]: st = "idle" | "walk" | "send"
-          dupIds     \* ids received by the collector (DuplicateIDs)
-vars == <<all, metas, pending, w, dupIds>>
+          dupIds,    \* ids received by the collector (DuplicateIDs)
+          expect     \* AlgoDedupKeptIds(all), computed once (constant during a behaviour)
+vars == <<all, metas, pending, w, dupIds, expect>>
 
 Idle == [g |-> 0, rest |-> {}, cover |-> {}, dups |-> {}, st |-> "idle"]
 
 BlockSets(n) == { { [id |-> i, src |-> f[i][1], grp |-> f[i][2]] : i \in 1..n } : f \in [1..n -> SrcSets \X Groups] }
-Init == /\ \E n \in 1..MaxBlocks : all \in BlockSets(n)
+(* group names are interchangeable: block 1 is put into group 1 *)
+Init == /\ \E n \in 1..MaxBlocks : all \in { S \in BlockSets(n) : \A b \in S : b.id = 1 => b.grp = 1 }
+        /\ expect = AlgoDedupKeptIds(all)
         /\ metas = { b.id : b \in all }
         /\ pending = { b.grp : b \in all }
         /\ w = [x \in Workers |-> Idle]
@@ -38,7 +41,7 @@ Take(x) == /\ w[x].st = "idle" /\ pending # {}
            /\ \E g \in pending :
                 /\ pending' = pending \ {g}
                 /\ w' = [w EXCEPT ![x] = [g |-> g, rest |-> { b \in all : b.grp = g }, cover |-> {}, dups |-> {}, st |-> "walk"]]
-           /\ UNCHANGED <<all, metas, dupIds>>
+           /\ UNCHANGED <<all, metas, dupIds, expect>>
 
 Walk(x) == /\ w[x].st = "walk"
            /\ IF w[x].rest = {} THEN w' = [w EXCEPT ![x].st = "send"]
@@ -46,7 +49,7 @@ Walk(x) == /\ w[x].st = "walk"
                    w' = [w EXCEPT ![x].rest = @ \ {c},
                                   ![x].cover = IF \E p \in w[x].cover : c.src \subseteq p.src THEN @ ELSE @ \cup {c},
                                   ![x].dups = IF \E p \in w[x].cover : c.src \subseteq p.src THEN @ \cup {c.id} ELSE @]
-           /\ UNCHANGED <<all, metas, pending, dupIds>>
+           /\ UNCHANGED <<all, metas, pending, dupIds, expect>>
 
 (* dupsChan is unbuffered: a send is one rendezvous with the collector, which deletes the id from metas *)
 Send(x) == /\ w[x].st = "send"
@@ -55,7 +58,7 @@ Send(x) == /\ w[x].st = "send"
                      /\ w' = [w EXCEPT ![x].dups = @ \ {d}]
                      /\ dupIds' = IF d \in metas THEN dupIds \cup {d} ELSE dupIds
                      /\ metas' = metas \ {d}
-           /\ UNCHANGED <<all, pending>>
+           /\ UNCHANGED <<all, pending, expect>>
 
 Next == \E x \in Workers : Take(x) \/ Walk(x) \/ Send(x)
 Spec == Init /\ [][Next]_vars /\ WF_vars(Next)
@@ -67,9 +70,9 @@ C31_HiddenOnlyIfCovered == Done => C31_HiddenUncovered(all, metas) = {}
 C31_KeptCoverEverySource == Done => C31_SourcesLost(all, metas) = {}
 (* independence of listing order and concurrency: every schedule ends in the same state, the one the   *)
 (* schedule-free algorithm-level function predicts                                                    *)
-C31_OutcomeIndependentOfSchedule == Done => metas = AlgoDedupKeptIds(all) /\ dupIds = { b.id : b \in all } \ metas
+C31_OutcomeIndependentOfSchedule == Done => metas = expect /\ dupIds = { b.id : b \in all } \ metas
 (* safety during the run: nothing is ever removed that the final result keeps *)
-NeverRemovesKept == AlgoDedupKeptIds(all) \subseteq metas
+NeverRemovesKept == expect \subseteq metas
 Terminates == <>Done
 
 (* ---- leg B: blocks in ULID order (position = id) ---- *)
